@@ -840,6 +840,28 @@ def expansion(ch: dict, inv: bool, L: float) -> float:
     return 1 / e if inv else e
 
 
+def sched_request(internals: dict) -> str:
+    """the neighbour / coincident lists as the model builds them from the vertex indexes alone"""
+    n = len(internals["verts"])
+    return f"c01.sched {n} " + ";".join(",".join(map(str, v)) for v in internals["verts"])
+
+
+def compare_sched(internals: dict, ans: str) -> Optional[str]:
+    """Axis.neighbours and Wire.coincidents of the implementation, in iteration order, against `builtNbrs` / `builtCoinc`"""
+    m = re.fullmatch(r"N\[(.*)\] K\[(.*)\]", ans)
+    if not m:
+        return "unparsable schedule answer " + ans[:80]
+    dec = lambda t: [[int(x) for x in part.split(",") if x] for part in t.split(";")]
+    nb, co = dec(m.group(1)), dec(m.group(2))
+    if nb != internals["nbrs"]:
+        k = next(i for i, (a, b) in enumerate(zip(nb, internals["nbrs"])) if a != b)
+        return f"Axis.neighbours of axis {k}: implementation {internals['nbrs'][k]}, model {nb[k]}"
+    if co != internals["coinc"]:
+        k = next(i for i, (a, b) in enumerate(zip(co, internals["coinc"])) if a != b)
+        return f"Wire.coincidents of wire {k}: implementation {internals['coinc'][k]}, model {co[k]}"
+    return None
+
+
 def model_request(internals: dict, chops: List[dict]) -> str:
     n = len(internals["verts"])
     verts = ";".join(",".join(map(str, v)) for v in internals["verts"])
